@@ -282,7 +282,7 @@ class top_conv(Conv):
                 arg_pt = rec(pt.rhs.arg)
                 return pt.transitive(fun_pt.combination(arg_pt))
             elif pt.rhs.is_abs():
-                v, body = t.dest_abs()
+                v, body = pt.rhs.dest_abs()
                 body_pt = rec(body)
                 if body_pt.is_reflexive():
                     return pt
